@@ -84,9 +84,7 @@ fn draw_iter_h<const FW: u16, const FH: u16, const N: usize>(oob: bool, fixed: b
         assert!(c.ramwr_count == 1, "[C20] a left-to-right run of two pixels is one burst");
     }
     kani::cover!(exp_cnt >= 1 && n == N, "cover: probe hit with a full stream");
-    if oob {
-        kani::cover!(n == N && !inb[0] && xs[0] > 70000, "cover: far out-of-bounds pixel");
-    }
+    kani::cover!(!oob || (n == N && !inb[0] && xs[0] > 70000), "cover: far out-of-bounds pixel (C02 variant)");
 }
 
 macro_rules! h {
@@ -98,17 +96,27 @@ macro_rules! h {
         }
     };
 }
-//@ props=C02,C08 cfg=main,nobatch inst="VModel<Rgb565,3,2>, draw_iter" bounds="0..=1 pixel with coordinates anywhere in i32 x i32; all cfgs on the 3x2 framebuffer; real batch capacities" timeout=1500 mem=8
+//@ props=C02,C08 cfg=smallcap,nobatch inst="VModel<Rgb565,3,2>, draw_iter (capacities 4/8 under hook H4 / no batching)" bounds="0..=1 pixel with coordinates anywhere in i32 x i32; all cfgs on the 3x2 framebuffer" timeout=1500 mem=8
 h!(c02_draw_iter_1, 3, draw_iter_h::<3, 2, 1>(true, false));
-//@ props=C02,C08 tier=thorough cfg=main,nobatch inst="VModel<Rgb565,3,2>, draw_iter" bounds="0..=2 pixels anywhere in i32 x i32; default cfg" timeout=3000 mem=14
-h!(c02_draw_iter_2, 4, draw_iter_h::<3, 2, 2>(true, true));
-//@ props=C02,C08,C20 cfg=smallcap inst="VModel<Rgb565,3,2>, draw_iter, capacities 4/8 (hook H4)" bounds="0..=2 pixels anywhere in i32 x i32; default cfg" timeout=1800 mem=10
+//@ props=C02,C08 tier=thorough cfg=main inst="VModel<Rgb565,3,2>, draw_iter, real capacities 50/100" bounds="0..=1 pixel anywhere in i32 x i32; all cfgs" timeout=3000 mem=12
+h!(c02_draw_iter_1_real, 3, draw_iter_h::<3, 2, 1>(true, false));
+//@ props=C02,C08 cfg=nobatch inst="VModel<Rgb565,3,2>, draw_iter without batching" bounds="0..=2 pixels anywhere in i32 x i32; default cfg" timeout=1500 mem=8
+h!(c02_draw_iter_2n, 4, draw_iter_h::<3, 2, 2>(true, true));
+//@ props=C02,C08,C20 tier=thorough cfg=smallcap inst="VModel<Rgb565,3,2>, draw_iter, capacities 4/8 (hook H4)" bounds="0..=2 pixels anywhere in i32 x i32; default cfg" timeout=3600 mem=24
 h!(c02_draw_iter_2s, 4, draw_iter_h::<3, 2, 2>(true, true));
-//@ props=C03,C01,C08,C20 cfg=main,nobatch inst="VModel<Rgb565,3,2>, draw_iter" bounds="0..=1 in-bounds pixel; all cfgs; real batch capacities" timeout=1500 mem=8
+//@ props=C02,C08 tier=thorough required=no cfg=main inst="VModel<Rgb565,3,2>, draw_iter, real capacities" bounds="0..=2 pixels anywhere in i32 x i32; default cfg" timeout=5400 mem=24
+h!(c02_draw_iter_2, 4, draw_iter_h::<3, 2, 2>(true, true));
+//@ props=C03,C01,C08,C20 cfg=smallcap,nobatch inst="VModel<Rgb565,3,2>, draw_iter (capacities 4/8 under hook H4 / no batching)" bounds="0..=1 in-bounds pixel; all cfgs" timeout=1500 mem=8
 h!(c03_bb_1, 3, draw_iter_h::<3, 2, 1>(false, false));
-//@ props=C03,C01,C08,C20 cfg=smallcap,nobatch inst="VModel<Rgb565,3,2>, draw_iter, capacities 4/8 (hook H4) / no batching" bounds="0..=2 in-bounds pixels (any order, repeats); default cfg" timeout=1800 mem=10
+//@ props=C03,C08,C20 tier=thorough cfg=main inst="VModel<Rgb565,3,2>, draw_iter, real capacities 50/100" bounds="0..=1 in-bounds pixel; all cfgs" timeout=3000 mem=12
+h!(c03_bb_1_real, 3, draw_iter_h::<3, 2, 1>(false, false));
+//@ props=C03,C01,C08 cfg=nobatch inst="VModel<Rgb565,3,2>, draw_iter without batching" bounds="0..=2 in-bounds pixels (any order, repeats); default cfg" timeout=1500 mem=8
+h!(c03_bb_2n, 4, draw_iter_h::<3, 2, 2>(false, true));
+//@ props=C03,C08,C20 tier=thorough cfg=smallcap inst="VModel<Rgb565,3,2>, draw_iter, capacities 4/8 (hook H4)" bounds="0..=2 in-bounds pixels (any order, repeats); default cfg" timeout=3600 mem=24
 h!(c03_bb_2, 4, draw_iter_h::<3, 2, 2>(false, true));
-//@ props=C03,C01,C08,C20 tier=thorough cfg=main inst="VModel<Rgb565,3,2>, draw_iter, real capacities 50/100" bounds="0..=2 in-bounds pixels; default cfg" timeout=3000 mem=14
+//@ props=C03,C08,C20 tier=thorough required=no cfg=main inst="VModel<Rgb565,3,2>, draw_iter, real capacities 50/100" bounds="0..=2 in-bounds pixels; default cfg" timeout=5400 mem=24
 h!(c03_bb_2real, 4, draw_iter_h::<3, 2, 2>(false, true));
-//@ props=C03,C01,C08,C20 tier=thorough cfg=smallcap,nobatch required=no inst="VModel<Rgb565,3,2>, draw_iter, capacities 4/8 / no batching" bounds="0..=3 in-bounds pixels; default cfg" timeout=5400 mem=20
+//@ props=C03,C08 tier=thorough cfg=nobatch inst="VModel<Rgb565,3,2>, draw_iter without batching" bounds="0..=3 in-bounds pixels; default cfg" timeout=3000 mem=12
+h!(c03_bb_3n, 5, draw_iter_h::<3, 2, 3>(false, true));
+//@ props=C03,C08,C20 tier=thorough required=no cfg=smallcap inst="VModel<Rgb565,3,2>, draw_iter, capacities 4/8" bounds="0..=3 in-bounds pixels; default cfg" timeout=7200 mem=30
 h!(c03_bb_3, 5, draw_iter_h::<3, 2, 3>(false, true));
